@@ -137,9 +137,14 @@ def rule_ranges(ctx: Ctx, rep: Report) -> None:
     rep.ob(rule, "b32:padding_rules", any("bits >= from_bits" in c.subject + " " + c.op + " " + c.value_text or (c.subject == "bits" and c.op == ">=") for c in cp) and any("maxv" in c.subject for c in cp), pc.where(), "more than from_bits-1 padding bits, or non-zero padding, refused")
     rep.ob(rule, "b32:value_range", any(c.subject == "value" and c.op == "<" and c.value == 0 for c in cp) and any("value >> from_bits" in c.subject for c in cp), pc.where(), "digits outside the source base refused")
     sg = ctx.func(f"{SPK}.assert_segwit")
+    refs = [(norm(t), pol) for t, pol, _ in ctx.refusals(sg)]
     tests = [norm(n.test) for n in own_nodes(sg.node) if isinstance(n, ast.If)]
-    rep.ob(rule, "spk:segwit_version_byte", "not (script_pub_key[0] == 0 or 81 <= script_pub_key[0] <= 96)" in tests, sg.where(), "first byte 0 or 0x51..0x60")
-    rep.ob(rule, "spk:segwit_program_len", "len(script_pub_key) == 1 or not 2 <= script_pub_key[1] <= 40" in tests and "len(script_pub_key) != script_pub_key[1] + 2" in tests, sg.where(), "push of 2..40 bytes and nothing else")
+    okv = any(t == "not (script_pub_key[0] == 0 or 81 <= script_pub_key[0] <= 96)" for t in tests) or \
+        (any(t == "script_pub_key[0] == 0" and not p_ for t, p_ in refs) and any(t == "81 <= script_pub_key[0] <= 96" and not p_ for t, p_ in refs))
+    rep.ob(rule, "spk:segwit_version_byte", okv, sg.where(), "first byte 0 or 0x51..0x60")
+    okl = any(t == "len(script_pub_key) == 1" and p_ for t, p_ in refs) and any(t == "2 <= script_pub_key[1] <= 40" and not p_ for t, p_ in refs) \
+        and any(t == "len(script_pub_key) != script_pub_key[1] + 2" and p_ for t, p_ in refs)
+    rep.ob(rule, "spk:segwit_program_len", okl, sg.where(), "push of 2..40 bytes and nothing else")
     b = ctx.func(f"{B58}.decode")
     cb = refusal_constraints(ctx, b)
     ml = ctx.const(B58, "MAX_LENGTH")
@@ -212,9 +217,9 @@ def rule_wif(ctx: Ctx, rep: Report) -> None:
     rep.ob(rule, "xkey_78", rl == 78, "btclib/bip32/bip32.py:1", f"_REQUIRED_LENGTH = {rl}")
     w = ctx.func("btclib.to_prv_key._wif_prv_key_and_compression")
     tests = [norm(n.test) for n in own_nodes(w.node) if isinstance(n, ast.If)]
-    rep.ob(rule, "wif_lengths", "len(payload) == n_size + 2" in tests and "len(payload) == n_size + 1" in tests, w.where(), "payload of n_size+1 (uncompressed) or n_size+2 (compressed)")
+    rep.ob(rule, "wif_lengths", any(t == "len(payload) == n_size + 2" for t in tests) and any(t == "len(payload) == n_size + 1" for t in tests), w.where(), "payload of n_size+1 (uncompressed) or n_size+2 (compressed)")
     g = ctx.cfg(w)
-    sfx = [c for c in refusal_constraints(ctx, w) if ("len(payload) == n_size + 2", True) in c.facts and c.op == "!=" and (c.value == 1 or c.value == b"\x01")]
+    sfx = [c for c in refusal_constraints(ctx, w) if PT.fact(c.facts, "len(payload) == n_size + 2") and c.op == "!=" and (c.value == 1 or c.value == b"\x01")]
     rep.ob(rule, "wif_compressed_suffix", bool(sfx), w.where(), "a compressed WIF must end in 0x01")
     oth = [n for n in own_nodes(w.node) if isinstance(n, ast.Raise) and "wrong WIF size" in norm(n)]
     rep.ob(rule, "wif_other_sizes_refused", bool(oth), w.where(), "any other payload size is refused")
